@@ -11,6 +11,10 @@ mod prog;
 mod c04;
 mod gen;
 mod c05;
+mod cffi;
+mod env;
+mod c08;
+mod c12;
 mod c19;
 
 fn main() {
@@ -30,6 +34,9 @@ fn main() {
         ["c04", "record", runs, path] => c04::record(runs.parse().unwrap(), path),
         ["c05", "replay", path] => c05::replay(path),
         ["c05", "record", runs, path] => c05::record(runs.parse().unwrap(), path),
+        ["c08", "replay", path] => c08::replay(path),
+        ["c08", "record", runs, path] => c08::record(runs.parse().unwrap(), path),
+        ["c12", "replay", path] => c12::replay(path),
         _ => {
             eprintln!("usage: vh <prop> <replay|record> ...");
             std::process::exit(2);
